@@ -195,6 +195,9 @@ class LedgerDevice:
 
     def chunk_size(self, label="chunk"):
         ch = self.ch
+        cap = self.cfg.get("max_chunk")
+        if cap:
+            return ch.int_between(max(1, cap // 2), cap, label + ".cap")
         kind = ch.draw(4, label + ".kind")
         if kind == 0:
             return 255
@@ -514,7 +517,7 @@ class LedgerDevice:
         st["cur"] = part
         # termination class for this part: 0 exact, 1 late, 2 early
         term = ch.weighted([(8, "exact"), (2, "late"), (1, "early")], "sign.term." + part)
-        if expected is None:
+        if expected is None or (term == "early" and self.cfg.get("no_early")):
             term = "exact"
         se.term = term
         se.extra_asks = ch.int_between(1, 3, "sign.late.n") if term == "late" else 0
@@ -652,7 +655,8 @@ class LedgerDevice:
                 exp_hdr = eb["bytes"]
             se = StreamExpect("brother" if bro else "block", exp_hdr)
             term = ch.weighted([(8, "exact"), (2, "late"), (2, "early")], "adv.term")
-            if exp_hdr is None or len(exp_hdr) < 2:
+            if exp_hdr is None or len(exp_hdr) < 2 or \
+                    (term == "early" and self.cfg.get("no_early")):
                 term = "exact"
             se.term = term
             se.extra_asks = ch.int_between(1, 2, "adv.late.n") if term == "late" else 0
